@@ -390,30 +390,37 @@ def k11(ctx, rid):
     for f in prog.fns.values():
         if not f.id.endswith('Blob::<K>::from_file::{closure#0}'):
             continue
-        regs = [c for c in f.calls if c.name == 'try_regenerate_index' and c.bb in f.reachable()]
+        def regenerates(c):
+            if c.name == 'try_regenerate_index':
+                return True
+            return any(t in prog.fns and prog.fns[t].file == f.file and any(x.name == 'try_regenerate_index' for g in prog.family(t) for x in prog.fns[g].calls)
+                       for t in prog.resolve(c) if c.name != 'poll')
+        regs = [c for c in f.calls if c.bb in f.reachable() and regenerates(c)]
         if not regs:
             continue
-        can = set(i for i in f.reachable() if any(c.bb in f.reach_from([i]) for c in regs))
-        for i in sorted(can):
-            t = f.blocks[i]['t']
-            if t['k'] != 'switch' or any(a.switch_bb == i for a in f.awaits()):
+        # the comparison of the file size with the blob header size - evaluated in a branch here, or handed as a bool to a helper
+        for i, b in enumerate(f.blocks):
+            if b['c'] or i not in f.reachable():
                 continue
-            outs = [tg for _, tg in t['vals']] + [t['otherwise']]
-            outs = [x for x in outs if x is not None and f.blocks[x]['t']['k'] != 'unreachable']
-            if not (any(x not in can for x in outs) and any(x in can for x in outs)):
-                continue
-            sites = []
-            lv = core.scalar_leaves(prog, f, t['o'], depth=0, sites=sites)
-            if ('call', 'serialized_size') not in lv:
-                continue
-            n += 1
-            key = 'scan-unless-header-only|%s' % prog.fns[f.id].root
-            sizes = {x for x in sites if x[0] == 'serialized_size'}
-            extra = {x for x in lv if x[0] in ('const', 'field', 'arg') and x[1] not in (0, '0')}
-            if len(sizes) == 1 and not extra:
-                ctx.ok(rid, key, f.where(i), 'the scan is skipped only when the file size does not exceed the blob header size')
-            else:
-                ctx.bad(rid, key, f.where(i), 'the guard of the start-up scan adds slack to the blob header size (%s): a file that holds a torn first record is not scanned, not quarantined, and becomes the active blob with garbage in front of every later record' % sorted(str(x) for x in (extra or sizes)))
+            for st in b['s']:
+                if st['k'] != 'a' or st['r']['k'] != 'bin' or st['r']['op'] not in ('Gt', 'Ge', 'Lt', 'Le', 'Eq', 'Ne'):
+                    continue
+                sites = []
+                lv = set()
+                for side in ('a', 'b'):
+                    lv |= core.scalar_leaves(prog, f, st['r'][side], depth=0, sites=sites)
+                if ('call', 'serialized_size') not in lv:
+                    continue
+                if not any(c.bb in f.reach_from([i]) for c in regs):
+                    continue
+                n += 1
+                key = 'scan-unless-header-only|%s' % prog.fns[f.id].root
+                sizes = {x for x in sites if x[0] == 'serialized_size'}
+                extra = {x for x in lv if x[0] in ('const', 'field', 'arg') and x[1] not in (0, '0')}
+                if len(sizes) == 1 and not extra:
+                    ctx.ok(rid, key, f.where(i), 'the scan is skipped only when the file size does not exceed the blob header size')
+                else:
+                    ctx.bad(rid, key, f.where(i), 'the guard of the start-up scan adds slack to the blob header size (%s): a file that holds a torn first record is not scanned, not quarantined, and becomes the active blob with garbage in front of every later record' % sorted(str(x) for x in (extra or sizes)))
     if n < 1:
         raise core.AnchorLost('guard of try_regenerate_index in Blob::from_file: %d' % n)
 
